@@ -188,7 +188,7 @@ pub fn hostile_spec(words: &[u32]) -> HostileSpec {
         Cfg { gossip: Some((1, 64)), suspect_to_down: 0, remove_down: 0, ..cfg.clone() },
     ];
     let mut api: Vec<Ev> = cfgs.into_iter().map(|c| Ev::SetConfig(Box::new(c))).collect();
-    api.extend([Ev::Gossip, Ev::Broadcast, Ev::Leave, Ev::Reuse, Ev::AddBroadcast(vec![]), Ev::AddBroadcast(vec![1, 1, 1]), Ev::AddBroadcast(vec![0xFF]), Ev::AddBroadcast(vec![2; 1500]), Ev::AddBroadcast(vec![3; 66_000])]);
+    api.extend([Ev::Apply(vec![al(id(D, 0))], true), Ev::Gossip, Ev::Broadcast, Ev::Leave, Ev::Reuse, Ev::AddBroadcast(vec![]), Ev::AddBroadcast(vec![1, 1, 1]), Ev::AddBroadcast(vec![0xFF]), Ev::AddBroadcast(vec![2; 1500]), Ev::AddBroadcast(vec![3; 66_000])]);
     base.alpha = Alpha { api, ..Alpha::default() };
     let mut sb = SeedBuilder::new(&base);
     sb.ev(Ev::Apply(vec![al(id(B, 0)), al(id(C, 0))], true));
@@ -228,6 +228,17 @@ pub fn hostile_spec(words: &[u32]) -> HostileSpec {
             break;
         }
     }
+    base.seed_hists.push(sb.done());
+    // the probe cursor parked past the end of the member list (a pass that
+    // wrapped around a trailing Down record), that record about to be
+    // forgotten: then somebody new shows up
+    let mut sb = SeedBuilder::new(&base);
+    sb.ev(Ev::Apply(vec![al(id(B, 0)), mm(id(C, 0), 0, State::Down)], true));
+    sb.age_probe_number(2);
+    base.seed_hists.push(sb.done());
+    let mut sb = SeedBuilder::new(&base);
+    sb.ev(Ev::Apply(vec![mm(id(C, 0), 0, State::Down), al(id(B, 0))], true));
+    sb.age_probe_number(3);
     base.seed_hists.push(sb.done());
     // long-lived instances: timer token about to wrap (active / defunct)
     // (quick tier: only the defunct one, a single call away from the wrap)
